@@ -2725,6 +2725,9 @@ func (s *swamp) CloneAndDeleteMatchingTreasures(beaconType BeaconType, order Bea
 	if capPredicate != nil {
 		s.capMu.Lock()
 		defer s.capMu.Unlock()
+		if verifhook.Enabled {
+			verifhook.Point("shiftm.locked", s)
+		}
 	}
 
 	atomic.StoreInt64(&s.lastInteractionTime, time.Now().UnixNano())
